@@ -111,7 +111,50 @@ fn c01_cfg(ctx: &Ctx, hot: bool) -> CaseCfg {
   }
 }
 
-fn c01_check(_ctx: &Ctx, c: &SeqCase) -> Report {
+/// a subscriber that arrives at a subject which already holds a history (or a latest value)
+/// and misbehaves from inside the hand-over: it terminates the subject, pushes more items or
+/// unsubscribes while the history is still being handed to it
+fn c01_late_strategy(_ctx: &Ctx) -> BoxedStrategy<SeqCase> {
+  let kinds = prop::sample::select(vec![HotKind::Replay, HotKind::Replay, HotKind::Behavior(5), HotKind::Subject]);
+  let react = (0usize..3, 0u8..4, 0i64..3).prop_map(|(at, what, v)| Reaction {
+    at,
+    what: match what {
+      0 => React::Emit(0, Ev::C),
+      1 => React::Emit(0, Ev::E(2)),
+      2 => React::Emit(0, Ev::N(50 + v)),
+      _ => React::UnsubSelf,
+    },
+  });
+  (
+    kinds,
+    prop::collection::vec(0i64..9, 0..=4),
+    prop::collection::vec(react, 1..=2),
+    gen::script_any(4),
+    any::<bool>(),
+    0u64..4,
+  )
+    .prop_map(|(kind, history, reactions, later, via_map, hash_seed)| {
+      let mut actions: Vec<Action> = history.into_iter().map(|v| Action::Emit(0, Ev::N(v))).collect();
+      actions.push(Action::Subscribe(0));
+      actions.extend(later.into_iter().map(|e| Action::Emit(0, e)));
+      let mut root = Node::Src(0, Src::Hot(0));
+      if via_map {
+        root = Node::Un(Op::Map(crate::val::MapF::Add(0)), Box::new(root));
+      }
+      root.renumber();
+      SeqCase {
+        case: Case { root, hots: vec![kind], hot_illformed: true, conn: None, conn_take: None, recorders: vec![reactions], actions },
+        hash_seed,
+      }
+    })
+    .boxed()
+}
+
+fn c01_check(ctx: &Ctx, c: &SeqCase) -> Report {
+  c01_check_run(ctx, c).0
+}
+
+fn c01_check_run(_ctx: &Ctx, c: &SeqCase) -> (Report, RunResult) {
   let r = run_seq(c);
   let mut rep = Report::ok();
   rep.classes = op_classes(&c.case);
@@ -154,7 +197,7 @@ fn c01_check(_ctx: &Ctx, c: &SeqCase) -> Report {
   for (k, evs) in r.log.recs.iter().enumerate() {
     if let Some(m) = contract_violation(evs) {
       rep.fail = Some(format!("recorder {}: {} | {}", k, m, render(c, &r)));
-      return rep;
+      return (rep, r);
     }
     // Subscription::is_subscribed() must be false once a terminal was recorded
     if let Some(t) = evs.iter().find(|e| e.k.is_terminal()) {
@@ -165,7 +208,7 @@ fn c01_check(_ctx: &Ctx, c: &SeqCase) -> Report {
             k,
             render(c, &r)
           ));
-          return rep;
+          return (rep, r);
         }
       }
     }
@@ -173,6 +216,26 @@ fn c01_check(_ctx: &Ctx, c: &SeqCase) -> Report {
   if r.outcome.kind == arx_rt::Kind::Panic {
     rep.fail = Some(format!("library panicked: {:?} | {}", r.outcome.panics, render(c, &r)));
   }
+  (rep, r)
+}
+
+fn c01_late_check(ctx: &Ctx, c: &SeqCase) -> Report {
+  let (mut rep, r) = c01_check_run(ctx, c);
+  // non-trivial: the subscriber did something from inside a callback
+  rep.nontrivial = !r.log.reactions_fired.is_empty();
+  for (k, ri) in &r.log.reactions_fired {
+    rep.classes.push(match &c.case.recorders[*k][*ri].what {
+      React::Emit(_, Ev::N(_)) => "from-a-callback:next".to_string(),
+      React::Emit(_, _) => "from-a-callback:terminal".to_string(),
+      React::UnsubSelf => "from-a-callback:unsubscribe".to_string(),
+      React::Subscribe(_) => "from-a-callback:subscribe".to_string(),
+    });
+  }
+  rep.classes.sort();
+  rep.classes.dedup();
+  rep.classes.retain(|x| !x.starts_with("op:"));
+  rep.classes.push(format!("subject:{:?}", c.case.hots[0]).split('(').next().unwrap().to_string());
+  // non-trivial: a reaction fired (the subscriber did something from inside a callback)
   rep
 }
 
@@ -514,11 +577,12 @@ pub fn properties() -> Vec<Property> {
   vec![
     Property {
       id: "C01",
-      rule: "cases = generated operator pipeline (all operator families, depth<=3/5) over ill-formed source scripts (arbitrary event lists) played by cold sources and by 2 hot sources interleaved by a generated order; non-trivial = some source attempted an emission after its own terminal or after the pipeline had terminated; distinct = distinct serialised case",
+      rule: "cases = generated operator pipeline (all operator families, depth<=3/5) over ill-formed source scripts (arbitrary event lists) played by cold sources and by 2 hot sources interleaved by a generated order; late_subscriber: a subscriber arriving at a Replay / Behavior / plain Subject that already holds a history and, from inside the hand-over, terminates the subject, pushes items or unsubscribes; non-trivial = some source attempted an emission after its own terminal or after the pipeline had terminated; distinct = distinct serialised case",
       assumptions: vec!["sequential driver; scheduler operators run on the default scheduler", "instrumented copy of /repo/src (std paths redirected to the arx_rt facade)"],
       subs: vec![
         mk_sub("cold", (900, 20_000), |ctx| seq_strategy(c01_cfg(ctx, false)), c01_check),
         mk_sub("hot", (900, 20_000), |ctx| seq_strategy(c01_cfg(ctx, true)), c01_check),
+        mk_sub("late_subscriber", (400, 8_000), c01_late_strategy, c01_late_check),
       ],
     },
     Property {
